@@ -147,6 +147,14 @@ def run(chk):
     cW1 = build({"a": ("input", []), "b": ("input", []), "w": ("or", ["a", "b"]), "v": ("and", ["a", "b"]), "o": ("not", ["v"])}, outputs=["o"])
     cases.append(("output of one is an internal net of the other::restructured second", cW0, cW1, None, None))
     cases.append(("output of one is an internal net of the other::restructured first", cW1, cW0, None, None))
+    # structurally identical operands with different multiplicities: xor(buf a, buf a, buf b) against xor(buf a, buf b, buf b) -
+    # the operand *sets* (up to structure) agree, the functions do not (a structural-hash shortcut keyed on a set of children
+    # takes them for equal); the idempotent and / or twins are equivalent and must be found so
+    def _mult(gate, left):
+        second = "a" if left else "b"
+        return build({"a": ("input", []), "b": ("input", []), "p": ("buf", ["a"]), "q": ("buf", [second]), "r": ("buf", ["b"]), "o": (gate, ["p", "q", "r"])}, outputs=["o"])
+    for gate in ("xor", "xnor", "and", "or"):
+        cases.append((f"identical operands with different multiplicities::{gate}", _mult(gate, True), _mult(gate, False), None, None))
     # self-miters (c1 omitted) of circuits whose own node names contain the copy prefixes
     cS = build({"c0_n": ("input", []), "c1_n": ("input", []), "xc0_y": ("and", ["c0_n", "c1_n"]), "c1_c0_z": ("xor", ["xc0_y", "c0_n"])}, outputs=["c1_c0_z", "xc0_y"])
     cases.append(("self-miter::names containing c0_ / c1_", cS, None, None, None))
